@@ -56,6 +56,9 @@ const EXTRA: &[(&str, &str)] = &[
         (type $s (func)) (func (export "f") (call_indirect (type $s) (i32.const 3))))"#),
     ("mvp-data-no-bulk", r#"(module (memory 1) (data (i32.const 0) "abc") (data (i32.const 16) "def") (func (export "f") (result i32) (i32.load (i32.const 0))))"#),
     ("mvp-data-only", r#"(module (memory (export "m") 1) (data (i32.const 0) "abc"))"#),
+    // names are not a feature: an MVP module whose data / element segments, locals and functions are all named stays MVP
+    ("mvp-named-data-and-elem", r#"(module (memory (export "m") 1) (table $t (export "t") 2 funcref) (func $named (param $p i32) (local $l i32) (local.set $l (local.get $p)))
+        (data $greeting (i32.const 16) "hello") (data $other (i32.const 0) "x") (elem $e (i32.const 0) func $named) (export "f" (func $named)))"#),
     ("mvp-data-imports-only", r#"(module (import "e" "f" (func)) (memory (export "m") 1) (data (i32.const 0) "abc") (export "f" (func 0)))"#),
     ("mvp-block-results", r#"(module (type $r (func (result i32))) (type $r64 (func (result f64)))
         (func (export "f") (param i32) (result i32)
@@ -86,13 +89,13 @@ pub fn features(args: &[String]) -> Result<JValue> {
     for (name, text) in corpus {
         if !args.is_empty() && !args.iter().any(|a| *a == name) { continue; }
         let wasm = wat::parse_str(&text)?;
-        for scenario in ["emit", "gc+emit"] {
+        for scenario in ["emit", "gc+emit", "emit with name section", "gc+emit with name section"] {
             let w2 = wasm.clone();
             let r = std::panic::catch_unwind(move || -> Result<Vec<u8>> {
                 let mut config = walrus::ModuleConfig::new();
-                config.generate_producers_section(false).generate_name_section(false);
+                config.generate_producers_section(false).generate_name_section(scenario.ends_with("with name section"));
                 let mut m = config.parse(&w2)?;
-                if scenario == "gc+emit" { walrus::passes::gc::run(&mut m); }
+                if scenario.starts_with("gc+emit") { walrus::passes::gc::run(&mut m); }
                 Ok(m.emit_wasm())
             });
             let out = match r { Ok(Ok(o)) => o, Ok(Err(e)) => { failures.push(json!({"module": name, "scenario": scenario, "what": format!("error: {e:#}")})); continue } Err(_) => { failures.push(json!({"module": name, "scenario": scenario, "what": "panic"})); continue } };
@@ -111,7 +114,7 @@ pub fn features(args: &[String]) -> Result<JValue> {
             let mvp = { let mut f = F::empty(); f.insert(F::FLOATS); f };
             let needs_bulk = { let mut f = all(); f.remove(F::BULK_MEMORY); !ok(&wasm, f) };
             if dc_out && !dc_in && !needs_bulk { fail("a data-count section appears although the module does not need bulk-memory".into()); }
-            if needs_bulk && dc_in && !dc_out && scenario == "emit" { fail("the data-count section the module needs was dropped".into()); }
+            if needs_bulk && dc_in && !dc_out && scenario.starts_with("emit") { fail("the data-count section the module needs was dropped".into()); }
             if ok(&wasm, mvp) {
                 if let Some(fl) = flags_out.iter().find(|f| **f != 0) { fail(format!("MVP input, but an element segment is emitted with flag {fl} (a post-MVP encoding)")); }
             }
